@@ -1,6 +1,6 @@
 From Coq Require Import List String Bool Arith ZArith.
 From YT Require Export Base.Str Base.KV Base.Sort Model.Doc Model.Dom Model.Path Model.Builder Model.Merge Model.Overlay
-  Model.Resolver Model.Analytics Check.Common.
+  Model.Resolver Model.Analytics Model.AnalyticsEvents Check.Common.
 Import ListNotations.
 Local Open Scope list_scope.
 
@@ -21,7 +21,21 @@ Inductive case :=
 | CDep (src : list (string * node)) (refs : list (list (string * node)))
        (all orphans : list string) (m : list (string * list (string * string)))
 | CPh (kf : kfilter) (ov : list (string * node)) (failed : list string) (co : list (string * list (string * string)))
-| CImpact (ov : list (string * node)) (keys : list string) (res : list (string * list (string * string))).
+| CImpact (ov : list (string * node)) (keys : list string) (res : list (string * list (string * string)))
+(* placeholder resolver built with a key filter, a value matcher and both callbacks: report + the events heard *)
+| CPhM (kf : kfilter) (vm : vmatcher) (ov : list (string * node)) (failed : list string)
+       (co : list (string * list (string * string))) (evs : list ph_event)
+(* dependency resolver built with a mention matcher and the callback *)
+| CDepM (mm : mmatcher) (src : list (string * node)) (refs : list (list (string * node)))
+        (all orphans : list string) (m : list (string * list (string * string)))
+        (evs : list (string * list (string * string))).
+
+Definition ph_event_eqb (a b : ph_event) : bool :=
+  match a, b with
+  | PhSeen k v, PhSeen k' v' => String.eqb k k' && String.eqb v v'
+  | PhFailed k v co, PhFailed k' v' co' => String.eqb k k' && String.eqb v v' && same_multiset coord_eqb co co'
+  | _, _ => false
+  end.
 
 Definition check (c : case) : bool :=
   match c with
@@ -32,6 +46,14 @@ Definition check (c : case) : bool :=
       let r := ph_resolve (kf_eval kf) (ov_of ov) in
       list_eqb String.eqb (failed_keys r) failed && cmap_eqb (failed_coords r) co
   | CImpact ov keys res => cmap_eqb (impact (ov_of ov) keys) res
+  | CPhM kf vm ov failed co evs =>
+      let r := ph_resolve_m (kf_eval kf) (vm_eval vm) (ov_of ov) in
+      list_eqb String.eqb (failed_keys r) failed && cmap_eqb (failed_coords r) co &&
+      same_multiset ph_event_eqb (ph_events (kf_eval kf) (vm_eval vm) (ov_of ov)) evs
+  | CDepM mm src refs all orphans m evs =>
+      let r := dep_resolve_m (mm_eval mm) (fun _ => true) (ov_of src) (map ov_of refs) in
+      list_eqb String.eqb (all_keys r) all && list_eqb String.eqb (orphan_keys r) orphans && cmap_eqb (dep_map r) m &&
+      cmap_eqb (dep_events (mm_eval mm) (fun _ => true) (ov_of src) (map ov_of refs)) evs
   end.
 
 Definition mismatches (cs : list case) : list nat := bad_indices check cs.
